@@ -490,6 +490,10 @@ func c02R4(p *core.Program, r *core.Report, pl *pipeline) {
 						return why, true
 					}
 				}
+				// fmt.Fprint*(os.Stdout, …) is what fmt.Print* is defined as
+				if (name == "fmt.Fprintf" || name == "fmt.Fprint" || name == "fmt.Fprintln") && len(c.Args) >= 1 && isStdStream(info, c.Args[0]) {
+					return a6Exceptions["*|fmt.Println"], true
+				}
 				why, ok := a6Exceptions["*|"+name]
 				return why, ok
 			}
